@@ -1,6 +1,11 @@
 #!/bin/bash
 # usage: try_mutant.sh <patch.diff> <tier> <Cnn> [Cnn...]   applies the patch to /repo, runs the checks, always reverts.
 patch="$1"; tier="$2"; shift 2
+. /verif/env.sh
+mkdir -p "$VERIF_BUILD"
+exec 8>"$VERIF_BUILD/.repolock"
+flock -x 8
+export VERIF_HOLDS_REPOLOCK=1
 cd /repo || exit 9
 if [ -n "$(git status --porcelain)" ]; then echo "/repo not clean"; exit 9; fi
 if ! git apply "$patch" 2>/dev/null; then
